@@ -34,6 +34,23 @@ PROPS["C17"] = {
     "assumptions": ["Quinn behaves as documented, flow control included", "&mut self exclusivity (no concurrent access to one stream handle)"],
 }
 
+PROPS["C05"] = {
+    "technique": "Verus contracts on the extracted error-handling functions with a prophecy model of the write-once error cell",
+    "text": "Unbounded deductive proof of the sequential content: every ConnectionError any handle returns equals the conversion of the cell's single winner; once the driver has handled an error every later call returns it and touches nothing; conn.close is called at most once, only for errors h3 itself detected, with exactly that error's code. PARTIAL: the schedule part of the statement (wake after store; the check/register window, i.e. the lost wake-up) is NOT decided — effects of &self calls on std atomics are invisible to contracts and Kani has no threads; a change that only reorders check/register is not detected.",
+    "note": "OnceLock modelled by prophecy (winner() is an immutable attribute of the cell; get/get_or_init only ever reveal it), AtomicWaker/AtomicBool without effect in contracts, transport close() recorded in a ghost log. Schedules (interleavings of shared-state operations) are outside this family: listed as unchecked assumption.",
+    "design_ref": "§4 C05, §6",
+    "trusted_base": COMMON_TB + ["OnceLock prophecy shim, AtomicWaker/AtomicBool shims (inc/shared_state_shim.rs)", "error enums extracted from /repo (inc/errors.rs); dyn Error payloads replaced by an opaque type (R0)"],
+    "assumptions": ["UNCHECKED: set_conn_error_and_wake wakes after it stores; no wake falls between the driver's check and its waker registration (lost wake-up)", "impl Drop for server::Connection closes again with H3_NO_ERROR (outside the contracts; quinn ignores a second close)"],
+}
+PROPS["C07"] = {
+    "technique": "Verus contracts on the extracted request-level error paths; the escalation entry carries the precondition is_connection_scoped(cause)",
+    "text": "Unbounded deductive proof: every path from a stream-scoped fault (peer RESET/STOP_SENDING, malformed message, section over the limit, FIN before HEADERS on either role) yields the stream-level outcome with the appropriate code (peer's code preserved), touches only this stream's ghost logs, and cannot reach the connection-error entry, whose precondition admits connection-scoped causes only. Independence of other requests is argued from ownership: the field lists of SharedState and of the request handles are pinned mechanically (a new shared field makes the run undecided); it is not proved about schedulers.",
+    "note": "Callee contracts assumed from other units: FrameStream::poll_next/is_eos (frames), decode_stateless (qpack_stateless), Header::try_from/into_*_parts (headers), send_response frame; http builders; await-erasure (R4) with poll_fn sites replaced by a shim (R0).",
+    "design_ref": "§4 C07, §6",
+    "trusted_base": COMMON_TB + ["callee contracts marked ASSUMED-FROM-UNIT in units/error_scope.rs.in", "Rust ownership/aliasing for cross-request independence (argued)", "await-erasure R4"],
+    "assumptions": ["task interleavings: independence rests on ownership + the pinned field list of SharedState", "a path that escalates with a connection-scoped code yet returns a stream-level error is not excluded (mutant B23)"],
+}
+
 NOT_YET = "unit not built yet in this round (see DESIGN §8 order of work)"
 for _id in ["C01", "C02", "C03", "C04", "C05", "C06", "C07", "C08", "C09", "C10", "C11", "C12", "C13", "C14", "C15", "C17", "C18", "C19"]:
     PROPS.setdefault(_id, {"not_applicable": NOT_YET})
